@@ -27,7 +27,7 @@ type nameSpace struct {
 
 func newNS() *nameSpace { return &nameSpace{map[string]bool{}, map[string]bool{}} }
 
-var scalarTypes = []string{"string", "string", "string", "int", "int", "int8", "uint8", "int64", "uint", "float64", "duration", "um", "bool"}
+var scalarTypes = []string{"string", "string", "string", "int", "int", "int8", "uint8", "int64", "uint", "float64", "duration", "um", "bool", "tb"}
 var intBases = []int{0, 0, 0, 0, 16, 2, 36, 8}
 
 func isIntType(t string) bool {
@@ -77,9 +77,12 @@ func genOpt(r *rand.Rand, ns *nameSpace, nsPrefix string, allowReq bool) *OptNod
 		if o.VType == "bool" {
 			o.Kind = "flag"
 		}
-	case k < 68:
+	case k < 65:
 		o.Kind = "slice"
 		o.VType = pick(r, []string{"string", "string", "int", "uint8", "um"})
+	case k < 68:
+		o.Kind = "sliceptr"
+		o.VType = pick(r, []string{"int", "string", "float64"})
 	case k < 78:
 		o.Kind = "map"
 		o.VType = pick(r, []string{"string", "string", "int"})
@@ -110,18 +113,18 @@ func genOpt(r *rand.Rand, ns *nameSpace, nsPrefix string, allowReq bool) *OptNod
 	if allowReq && chance(r, 0.15) {
 		o.Required = true
 	}
-	if canArg && o.Kind != "func1" && chance(r, 0.2) {
+	if canArg && chance(r, 0.2) {
 		n := 1
-		if (o.Kind == "slice" || o.Kind == "map") && chance(r, 0.5) {
+		if (o.Kind == "slice" || o.Kind == "map" || o.Kind == "sliceptr" || o.Kind == "func1") && chance(r, 0.5) {
 			n = 2
 		}
 		for i := 0; i < n; i++ {
 			o.Defaults = append(o.Defaults, validValue(r, o))
 		}
 	}
-	if canArg && o.Kind != "func1" && chance(r, 0.15) {
+	if canArg && chance(r, 0.15) {
 		o.Env = pick(r, envPool)
-		if (o.Kind == "slice" || o.Kind == "map") && chance(r, 0.6) {
+		if (o.Kind == "slice" || o.Kind == "map" || o.Kind == "sliceptr" || o.Kind == "func1") && chance(r, 0.6) {
 			o.EnvDelim = pick(r, []string{",", ";", "::"})
 		}
 	}
@@ -161,17 +164,17 @@ func genOpt(r *rand.Rand, ns *nameSpace, nsPrefix string, allowReq bool) *OptNod
 		switch o.Kind {
 		case "scalar":
 			if o.VType == "string" {
-				o.Init = []string{"preset"}
+				o.Init = txts("preset")
 			} else if o.VType == "int" {
-				o.Init = []string{"41"}
+				o.Init = txts("41")
 			}
 		case "slice":
 			if o.VType == "string" {
-				o.Init = []string{"p1", "p2"}
+				o.Init = txts("p1", "p2")
 			}
 		case "map":
 			if o.VType == "string" {
-				o.Init = []string{"pk:pv"}
+				o.Init = txts("pk:pv")
 			}
 		}
 	}
@@ -229,13 +232,15 @@ func validValue(r *rand.Rand, o *OptNode) string {
 	case vt == "uint":
 		v = pick(r, []string{"5", "0", "1000", "7"})
 	case isIntType(vt):
-		v = pick(r, []string{"5", "-5", "0", "42", "-1", "7", "+3", "007", "1000"})
+		v = pick(r, []string{"5", "-5", "0", "42", "-1", "7", "+3", "007", "1000", "010", "0123", "-017"})
 	case vt == "float64":
 		v = pick(r, []string{"1.5", "-2", "0", "1e3", "0.25"})
 	case vt == "duration":
 		v = pick(r, []string{"1s", "2m", "0", "1h2m3s", "-5m"})
 	case vt == "bool":
 		v = pick(r, []string{"true", "false", "1", "0"})
+	case vt == "tb":
+		v = pick(r, []string{"on", "off"})
 	}
 	if isIntType(vt) {
 		switch o.Base {
@@ -283,6 +288,8 @@ func invalidValue(r *rand.Rand, o *OptNode) string {
 		return pick(r, oddStringVals)
 	case vt == "um":
 		return "!no"
+	case vt == "tb":
+		return pick(r, []string{"true", "", "ON", "1"})
 	case vt == "int8":
 		return pick(r, []string{"128", "-129", "x", "", "1.0", " 5", "5 ", "1_0", "0x10", "--5", "٣"})
 	case vt == "uint8":
@@ -290,7 +297,7 @@ func invalidValue(r *rand.Rand, o *OptNode) string {
 	case vt == "uint":
 		return pick(r, []string{"-1", "x", "", "18446744073709551616", "+1"})
 	case isIntType(vt):
-		return pick(r, []string{"x", "", "9223372036854775808", "-9223372036854775809", "1.5", "1_000", "0x1f", " 1", "12a"})
+		return pick(r, []string{"x", "", "9223372036854775808", "-9223372036854775809", "1.5", "1_000", "0x1f", " 1", "12a", "0b101", "0o17", "0x10", "1_0"})
 	case vt == "float64":
 		return pick(r, []string{"x", "", "1e400", "1.5.2"})
 	case vt == "duration":
@@ -839,6 +846,17 @@ func genScenario(r *rand.Rand, t *Tree, id int) *Scenario {
 	}
 	sc.CmdHandler = chance(r, 0.3)
 	sc.ExecErr = chance(r, 0.1)
+	sc.Prelude = []S{}
+	if chance(r, 0.04) {
+		sc.Completion = toS(pick(r, []string{"1", "verbose", "true", "0", "x", " "}))
+	}
+	if chance(r, 0.12) {
+		// a first parse on the same parser (mostly valid), so that nothing of it may leak into the judged one
+		pre := &Scenario{}
+		genArgv(rand.New(rand.NewSource(r.Int63())), t, pre)
+		sc.HasPrelude = true
+		sc.Prelude = pre.Argv
+	}
 	// environment
 	for _, k := range envPool {
 		if chance(r, 0.3) {
